@@ -741,6 +741,10 @@ def run(tier, procs=None, only=None):
     )
 
 
+# every real-library oracle of this property (each returns (reproduced, detail)); used to confirm structural facts that carry no replay of their own
+ALL_REPLAYS = [replay_algebra, replay_alias, replay_representations, replay_axes, replay_euler_rotate]
+
+
 def replay(data):
     key = data.get("key", "")
     fn = replay_algebra
